@@ -65,7 +65,7 @@ def is_modelled_label(v):
     return False
 
 
-def pick_labels(rng, n, wild_p=0.3, range_p=0.2, np_p=0.0):
+def pick_labels(rng, n, wild_p=0.3, range_p=0.2, np_p=0.0, idx_p=0.0):
     """n distinct labels. Sometimes exactly range(n), sometimes a permutation of small ints."""
     r = rng.random()
     if r < range_p:
@@ -74,6 +74,27 @@ def pick_labels(rng, n, wild_p=0.3, range_p=0.2, np_p=0.0):
         p = list(range(n))
         rng.shuffle(p)
         return p
+    if n and r < range_p + 0.08 + idx_p:
+        # labels that LOOK like the index labelling without being it: the fast paths keyed on `is_range`
+        # (no VARS section / no variable_labels.json) must not swallow them
+        # (a FLOAT label equal to its own index is not generated: Variables stores it as the index label - 2.0 == 2 and
+        # hash(2.0) == hash(2) - so the saved model already has the int label, except for dtype=object BQMs where the
+        # label comes back as int 2: equal as a dictionary key, reported as an observation, not a violation)
+        mode = rng.choice(['gap', 'tail_str', 'np_idx', 'shift', 'swap2', 'float_off'])
+        out = list(range(n))
+        if mode == 'float_off':
+            out = [i + 0.5 for i in out]
+        elif mode == 'gap':
+            out[-1] = n
+        elif mode == 'tail_str':
+            out[-1] = str(n - 1)
+        elif mode == 'np_idx':
+            out = [np.int64(i) for i in out]
+        elif mode == 'shift':
+            out = [i + 1 for i in out]
+        elif n >= 2:
+            out[0], out[1] = out[1], out[0]
+        return out
     pool = list(MODELLED_LABELS)
     if rng.random() < wild_p:
         pool += WILD_LABELS
@@ -181,9 +202,9 @@ def build_qm(desc, dtype='float64'):
     return qm
 
 
-def rand_cqm_desc(rng, nmax=4, cmax=3, wild_p=0.3, shaped_p=0.0, np_p=0.0, real_q_p=0.0):
+def rand_cqm_desc(rng, nmax=4, cmax=3, wild_p=0.3, shaped_p=0.0, np_p=0.0, real_q_p=0.0, idx_p=0.0):
     n = rng.randint(0, nmax)
-    labels = pick_labels(rng, n, wild_p=wild_p, np_p=np_p)
+    labels = pick_labels(rng, n, wild_p=wild_p, np_p=np_p, idx_p=idx_p)
     real_q = bool(real_q_p) and rng.random() < real_q_p
     base = rand_desc(rng, labels, kinds=('BINARY', 'SPIN', 'INTEGER', 'INTEGER', 'REAL'))
     allvars = base["vars"]
@@ -356,9 +377,9 @@ def _build_cqm(c):
     return cqm
 
 
-def rand_dqm_desc(rng, nmax=4, wild_p=0.3, np_p=0.0):
+def rand_dqm_desc(rng, nmax=4, wild_p=0.3, np_p=0.0, idx_p=0.0):
     n = rng.randint(0, nmax)
-    labels = pick_labels(rng, n, wild_p=wild_p, np_p=np_p)
+    labels = pick_labels(rng, n, wild_p=wild_p, np_p=np_p, idx_p=idx_p)
     vars_ = [[enc_label(l), rng.randint(1, 3)] for l in labels]
     lin = [[v[0], k, str(rng.dyadic(8, 2))] for v in vars_ for k in range(v[1]) if rng.random() < 0.7]
     quad = []
@@ -564,7 +585,9 @@ def clabels(ls):
 
 
 def is_range(labels):
-    return all(type(v) is int and v == i for i, v in enumerate(labels))
+    """the labels ARE the index labelling as dimod sees it: integral labels (int or NumPy integer - a dtype=object BQM keeps
+    np.int64(2) as such, and it equals and hashes like 2) sitting at their own index"""
+    return all(isinstance(v, (int, np.integer)) and not isinstance(v, bool) and int(v) == i for i, v in enumerate(labels))
 
 
 def fdt(m):
@@ -665,3 +688,291 @@ def cut_member(cqm_bytes, member, k):
 def zip_members(cqm_bytes):
     with zipfile.ZipFile(io.BytesIO(cqm_bytes)) as zf:
         return {n: zf.read(n) for n in zf.namelist()}
+
+
+# ------------------------------------------------------------------------------------------------
+# CQM serialization version 1.x ("legacy") files, written by hand
+# ------------------------------------------------------------------------------------------------
+# Layout (dimod 0.10.6 - 0.12.3 ConstrainedQuadraticModel.to_file, read today by _from_file_legacy):
+#   header  b'DIMODCQM' + (1, minor) + uint32 length + JSON dict + '\n' + spaces up to a multiple of 64
+#           1.0: num_variables num_constraints num_biases | 1.1: + num_quadratic_variables (constraints only)
+#           1.2: + num_quadratic_variables_real (with objective), num_linear_biases_real | 1.3: + num_weighted_constraints
+#   zip     objective                       a QM file that lists EVERY variable of the model, in model order
+#           constraints/<json label>/lhs    a QM or BQM file            .../rhs   float64
+#           constraints/<json label>/sense  ascii '<=' '>=' '=='        .../discrete  one byte
+#           constraints/<json label>/weight float64, .../penalty ascii  (1.3, soft constraints only)
+# There is no `varinfo` member and no `variable_labels.json`: the objective member carries the variable order,
+# the vartypes and the bounds.
+
+def _member_qm(expr, variables, vinfo_of, dtype=np.float64):
+    qm = dimod.QuadraticModel(dtype=dtype)
+    for v in variables:
+        vt, lb, ub = vinfo_of(v)
+        if vt in ('INTEGER', 'REAL'):
+            qm.add_variable(vt, v, lower_bound=lb, upper_bound=ub)
+        else:
+            qm.add_variable(vt, v)
+    for v in expr.variables:
+        qm.set_linear(v, expr.get_linear(v))
+    for u, v, b in expr.iter_quadratic():
+        qm.add_quadratic(u, v, b)
+    qm.offset = expr.offset
+    return qm
+
+
+def _member_bqm(expr, vartype):
+    bqm = dimod.BinaryQuadraticModel(vartype)
+    for v in expr.variables:
+        bqm.add_variable(v)
+        bqm.set_linear(v, expr.get_linear(v))
+    for u, v, b in expr.iter_quadratic():
+        bqm.add_quadratic(u, v, b)
+    bqm.offset = expr.offset
+    return bqm
+
+
+def legacy_header(version, data):
+    js = json.dumps(data, sort_keys=True).encode('ascii') + b'\n'
+    n = 8 + 2 + 4 + len(js)
+    js += b' ' * ((-n) % 64)
+    return b'DIMODCQM' + bytes(version) + len(js).to_bytes(4, 'little') + js
+
+
+def legacy_cqm_bytes(m, minor, compress=False, bqm_lhs=(), bqm_version=2, member_order=None, f32=()):
+    """`m` (built with today's API) as a serialization-version-(1, minor) file, written by hand. bqm_lhs[i]: write the
+    i-th constraint's lhs as a BQM file when all its variables have one binary vartype. Returns (bytes, members)."""
+    def vinfo_of(v):
+        return m.vartype(v).name, m.lower_bound(v), m.upper_bound(v)
+    allv = list(m.variables)
+    members = [("objective", _member_qm(m.objective, allv, vinfo_of).to_file().read())]
+    nb = len(allv) + m.objective.num_interactions
+    nqv = 0
+    deg_real = sum(1 for v in allv if m.vartype(v) is dimod.REAL and
+                   any(v in (a, b) for a, b, _ in m.objective.iter_quadratic()))
+    nlin_real = sum(1 for v in allv if m.vartype(v) is dimod.REAL)
+    nsoft = 0
+    for i, (lab, con) in enumerate(m.constraints.items()):
+        lhs = con.lhs
+        lv = list(lhs.variables)
+        vts = {m.vartype(v) for v in lv}
+        as_bqm = i < len(bqm_lhs) and bqm_lhs[i] and len(vts) == 1 and vts <= {dimod.BINARY, dimod.SPIN}
+        # a float32 member (old BQM constraints were often float32): only when every number in it is a float32
+        narrow = i < len(f32) and f32[i] and all(float(np.float32(x)) == float(x) for x in
+                                                 [lhs.offset] + [lhs.get_linear(v) for v in lv] + [b for _, _, b in lhs.iter_quadratic()]
+                                                 + [y for v in lv for y in (m.lower_bound(v), m.upper_bound(v))])
+        if as_bqm:
+            mb = _member_bqm(lhs, next(iter(vts)))
+            if narrow:
+                mb = dimod.BinaryQuadraticModel(mb, dtype=np.float32)
+            mem = mb.to_file(version=bqm_version).read()
+        else:
+            mq = _member_qm(lhs, lv, vinfo_of, dtype=np.float32 if narrow else np.float64)
+            mem = mq.to_file().read()
+        lstr = json.dumps(dimod.variables.serialize_variable(lab))
+        base = f"constraints/{lstr}/"
+        members.append((base + "lhs", mem))
+        members.append((base + "rhs", np.float64(con.rhs).tobytes()))
+        members.append((base + "sense", con.sense.value.encode('ascii')))
+        members.append((base + "discrete", bytes((bool(lhs.is_discrete()),))))
+        if lhs.is_soft():
+            nsoft += 1
+            members.append((base + "weight", np.float64(lhs.weight()).tobytes()))
+            members.append((base + "penalty", lhs.penalty().encode('ascii')))
+        quads = list(lhs.iter_quadratic())
+        nb += len(lv) + len(quads)
+        inq = [v for v in lv if any(v in (a, b) for a, b, _ in quads)]
+        nqv += len(inq)
+        if not as_bqm:
+            deg_real += sum(1 for v in inq if m.vartype(v) is dimod.REAL)
+            nlin_real += sum(1 for v in lv if m.vartype(v) is dimod.REAL)
+    data = dict(num_variables=len(allv), num_constraints=len(m.constraints), num_biases=nb)
+    if minor >= 1:
+        data.update(num_quadratic_variables=nqv)
+    if minor >= 2:
+        data.update(num_quadratic_variables_real=deg_real, num_linear_biases_real=nlin_real)
+    if minor >= 3:
+        data.update(num_weighted_constraints=nsoft)
+    if member_order is not None:
+        members = [members[0]] + [members[1:][j] for j in member_order]
+    out = io.BytesIO()
+    out.write(legacy_header((1, minor), data))
+    with zipfile.ZipFile(out, mode='a', compression=zipfile.ZIP_DEFLATED if compress else zipfile.ZIP_STORED) as zf:
+        for name, b in members:
+            zf.writestr(name, b)
+    return out.getvalue(), members
+
+
+def legacy_expected_state(s0):
+    """state of the model a version-1.x file of `s0` denotes: the objective lists every variable"""
+    s = json.loads(json.dumps(s0))
+    keys = [json.dumps(v, sort_keys=True) for v in s["vars"]]
+    s["objective"]["vars"] = sorted(keys)
+    for k in keys:
+        s["objective"]["lin"].setdefault(k, "0")
+    return s
+
+
+VT_CODE = {'BINARY': 'VT_BINARY', 'SPIN': 'VT_SPIN', 'INTEGER': 'VT_INTEGER', 'REAL': 'VT_REAL'}
+
+
+def nexpr_term(cqm, expr):
+    """Coq `nexpr` (Model/CqmFile.v) of an expression of a loaded CQM, in the expression's own variable order"""
+    t = np.float64
+    vs = list(expr.variables)
+    loc = {key(v): i for i, v in enumerate(vs)}
+    vars_ = clist([f"({clabel(v)}, ({VT_CODE[cqm.vartype(v).name]}, ({cbytes(t(cqm.lower_bound(v)).tobytes())}, "
+                   f"{cbytes(t(cqm.upper_bound(v)).tobytes())})))" for v in vs])
+    lin = clist([cbytes(t(expr.get_linear(v)).tobytes()) for v in vs])
+    quad = clist([f"({loc[key(u)]}, ({loc[key(v)]}, {cbytes(t(b).tobytes())}))" for u, v, b in expr.iter_quadratic()])
+    return f"(mkNexpr {vars_} {lin} {quad} {cbytes(t(expr.offset).tobytes())})"
+
+
+def lmodel_term(cqm):
+    """Coq `lmodel` of a loaded CQM: variables in the loaded order, objective, constraints"""
+    t = np.float64
+    vars_ = clist([f"({clabel(v)}, ({VT_CODE[cqm.vartype(v).name]}, ({cbytes(t(cqm.lower_bound(v)).tobytes())}, "
+                   f"{cbytes(t(cqm.upper_bound(v)).tobytes())})))" for v in cqm.variables])
+    cons = []
+    for lab, con in cqm.constraints.items():
+        lhs = con.lhs
+        soft = (f"(Some ({cbytes(t(lhs.weight()).tobytes())}, {cbytes(lhs.penalty().encode('ascii'))}))"
+                if lhs.is_soft() else "None")
+        cons.append(f"(mkLcon {clabel(lab)} {nexpr_term(cqm, lhs)} {cbytes(t(con.rhs).tobytes())} "
+                    f"{cbytes(con.sense.value.encode('ascii'))} {'true' if lhs.is_discrete() else 'false'} {soft})")
+    return f"(mkLmodel {vars_} {nexpr_term(cqm, cqm.objective)} {clist(cons)})"
+
+
+def archive_term(cqm_bytes):
+    """Coq `archive`: (member name, member bytes) in directory order"""
+    with zipfile.ZipFile(io.BytesIO(cqm_bytes)) as zf:
+        return clist([f"({cbytes(n.encode('utf-8'))}, {cbytes(zf.read(n))})" for n in zf.namelist()])
+
+
+def cqm_all_modelled(cqm):
+    return all(is_modelled_label(v) for v in cqm.variables) and all(is_modelled_label(l) for l in cqm.constraints)
+
+
+def legacy_term(cqm_bytes, loaded):
+    return f"(CLegacy {archive_term(cqm_bytes)} {lmodel_term(loaded)})"
+
+
+def indep_bqm_state(data):
+    """A BQM file (format versions 1.0 / 2.0, any index dtypes) read by hand from the format description in
+    BinaryQuadraticModel.to_file's docstring - no dimod code involved: header, offset, n x (neighbourhood start, bias),
+    the neighbourhoods as (index, bias) records, labels from the header (1.x) or the VARS section (2.0).
+    Returns the state (same shape as state_of) the file denotes."""
+    assert data[:8] == b'DIMODBQM'
+    version = (data[8], data[9])
+    hlen = int.from_bytes(data[10:14], 'little')
+    hdr = json.loads(data[14:14 + hlen].decode('ascii'))
+    pos = 14 + hlen
+    dt = np.dtype(hdr["dtype"]); it = np.dtype(hdr["itype"]); nt = np.dtype(hdr["ntype"])
+    n, m_ = hdr["shape"]
+
+    def rd(t):
+        nonlocal pos
+        x = np.frombuffer(data[pos:pos + t.itemsize], t)[0]
+        pos += t.itemsize
+        return x
+    off = rd(dt)
+    nidx, lin = [], []
+    for _ in range(n):
+        nidx.append(int(rd(nt))); lin.append(rd(dt))
+    nbh = []
+    for v in range(n):
+        deg = (nidx[v + 1] if v + 1 < n else 2 * m_) - nidx[v]
+        nbh.append([(int(rd(it)), rd(dt)) for _ in range(deg)])
+
+    def lab(x):
+        return tuple(lab(y) for y in x) if isinstance(x, list) else x
+    if version < (2, 0):
+        labels = [lab(x) for x in hdr["variables"]] if hdr["variables"] else list(range(n))
+    elif hdr["variables"]:
+        i = data.index(b'VARS', pos)
+        ln = int.from_bytes(data[i + 4:i + 8], 'little')
+        labels = [lab(x) for x in json.loads(data[i + 8:i + 8 + ln].decode('ascii'))]
+    else:
+        labels = list(range(n))
+    ks = [key(v) for v in labels]
+    quad = {}
+    for v in range(n):
+        for u, b in nbh[v]:
+            if u < v:
+                quad[json.dumps(sorted([ks[u], ks[v]]))] = fx(b)
+    return {"lin": {ks[i]: fx(lin[i]) for i in range(n)}, "quad": quad, "off": fx(off), "vars": [tl(v) for v in labels],
+            "nbh": [[[u, fx(b)] for u, b in nb] for nb in nbh], "type": "BQM", "dtype": dt.name, "vartype": hdr["vartype"]}
+
+
+# ------------------------------------------------------------------------------------------------
+# DQM files written by hand (format versions 1.0 and 1.1) from a description, without dimod
+# ------------------------------------------------------------------------------------------------
+# header b'DIMODDQM' (1, minor) uint32 length JSON '\n' padding | b'BIAS' uint32 length, an .npz archive with
+# case_starts, linear_biases, quadratic_row_indices, quadratic_col_indices, quadratic_biases[, offset: 1.1 only]
+# | b'VARS' uint32 length, JSON list of labels, padding (only when the labels are not range(n))
+
+def dqm_bytes_by_hand(d, minor=1, compress=False, index_dtype=np.int64):
+    """-> (bytes, expected state).  Version 1.0 has no offset entry: the file denotes offset 0."""
+    labels = [dec_label(l) for l, _ in d["vars"]]
+    ncases = [k for _, k in d["vars"]]
+    starts = [0]
+    for k in ncases[:-1]:
+        starts.append(starts[-1] + k)
+    pos = {key(l): i for i, l in enumerate(labels)}
+    lin = [0.0] * sum(ncases)
+    for l, k, b in d["lin"]:
+        lin[starts[pos[key(dec_label(l))]] + k] = float(F(b))
+    q = {}
+    for u, a, v, b, bias in d["quad"]:
+        r, c = starts[pos[key(dec_label(u))]] + a, starts[pos[key(dec_label(v))]] + b
+        q[(max(r, c), min(r, c))] = float(F(bias))
+    rc = sorted(q)
+    off = float(F(d["off"])) if minor >= 1 else 0.0
+    arrays = dict(case_starts=np.asarray(starts if ncases else [], dtype=index_dtype),
+                  linear_biases=np.asarray(lin, dtype=np.float64),
+                  quadratic_row_indices=np.asarray([r for r, _ in rc], dtype=index_dtype),
+                  quadratic_col_indices=np.asarray([c for _, c in rc], dtype=index_dtype),
+                  quadratic_biases=np.asarray([q[x] for x in rc], dtype=np.float64))
+    if minor >= 1:
+        arrays["offset"] = np.float64(off)
+    npz = io.BytesIO()
+    (np.savez_compressed if compress else np.savez)(npz, **arrays)
+    npz = npz.getvalue()
+    var_pairs = {(pos_u, pos_v) for (r, c) in rc
+                 for pos_u in [max(i for i, s in enumerate(starts) if s <= r)]
+                 for pos_v in [max(i for i, s in enumerate(starts) if s <= c)]}
+    hdr = dict(num_variables=len(labels), num_cases=sum(ncases), num_case_interactions=len(rc),
+               num_variable_interactions=len(var_pairs), variables=not is_range(labels))
+    js = json.dumps(hdr, sort_keys=True).encode('ascii') + b'\n'
+    js += b' ' * ((-(8 + 2 + 4 + len(js))) % 64)
+    out = b'DIMODDQM' + bytes((1, minor)) + len(js).to_bytes(4, 'little') + js
+    out += b'BIAS' + len(npz).to_bytes(4, 'little') + npz
+    if not is_range(labels):
+        vs = json.dumps([dimod.variables.serialize_variable(v) for v in labels]).encode('ascii')
+        vs += b' ' * ((-(8 + len(vs))) % 64)
+        out += b'VARS' + len(vs).to_bytes(4, 'little') + vs
+    # the state the file denotes, straight from the description
+    qs = {}
+    for (r, c), bias in q.items():
+        i = max(i for i, s in enumerate(starts) if s <= r)
+        j = max(i2 for i2, s in enumerate(starts) if s <= c)
+        qs.setdefault(f"{i},{j}", []).append([r - starts[i], c - starts[j], fx(bias)])
+    exp = {"type": "DQM", "vars": [tl(v) for v in labels], "cases": ncases,
+           "lin": [[fx(x) for x in lin[starts[i]:starts[i] + ncases[i]]] for i in range(len(labels))],
+           "quad": {k: sorted(v) for k, v in qs.items()}, "off": fx(off)}
+    return out, exp
+
+
+def c2model_term(cqm):
+    """Coq `c2model` (Model/CqmFile2.v): what to_file writes for `cqm`, member by member"""
+    t = np.float64
+    pv = list(cqm.variables)
+    vi = clist([f"({VT_CODE[cqm.vartype(v).name]}, ({cbytes(t(cqm.lower_bound(v)).tobytes())}, "
+                f"{cbytes(t(cqm.upper_bound(v)).tobytes())}))" for v in pv])
+    cons = []
+    for lab, con in cqm.constraints.items():
+        lhs = con.lhs
+        soft = (f"(Some ({cbytes(t(lhs.weight()).tobytes())}, {cbytes(lhs.penalty().encode('ascii'))}))"
+                if lhs.is_soft() else "None")
+        cons.append(f"(mkC2con {clabel(lab)} {expr_file_term(lhs, pv)} {cbytes(t(con.rhs).tobytes())} "
+                    f"{cbytes(con.sense.value.encode('ascii'))} {'true' if lhs.is_discrete() else 'false'} {soft})")
+    return f"(mkC2model {vi} {clabels(None if is_range(pv) else pv)} {expr_file_term(cqm.objective, pv)} {clist(cons)})"
